@@ -90,7 +90,10 @@ CLAIMED = {
             "one entry/attribute string/header line from symbolic names, attribute values and descriptions (over the "
             "schema's own character classes), the real reader functions read it back, and both an independent line "
             "reader and the library's own entry equality must agree with the original; a schema merged from several "
-            "libraries refuses to save through all entry points. XML, TSV files (pandas), whole-schema and "
+            "libraries refuses to save through all entry points; the format-independent traversal (real "
+            "process_schema/_output_units/_output_section/_should_skip on a recording writer) hands the writers "
+            "exactly the library entries for an unmerged save of a partnered schema and every entry otherwise, for "
+            "every inLibrary combination on 3 unit classes, 5 units, 2 value classes. XML, TSV files (pandas), whole-schema and "
             "cross-format equality are NOT decided.",
             "one line at a time; pieces of 2-5 characters; attribute names concrete per shape; the tag-name regex is "
             "answered from the writer's layout during symbolic runs (real regex on replay); one recorded known "
@@ -131,7 +134,9 @@ CLAIMED = {
             "Bounded, solver-decided: for issues produced by the real error wrappers on real tags parsed from "
             "symbolic text, character offsets lie inside the text and the tag span and select exactly the quoted "
             "fragment (also for rows combined from several cells), the location suffix occurs exactly once after one "
-            "or two decoration passes and through the real HedValidator.validate staging, errors-only equals the "
+            "or two decoration passes and through the real HedValidator.validate staging, the tag-name character "
+            "check (real check_tag_invalid_chars) reports one issue per offending character occurrence with offsets "
+            "selecting that occurrence, errors-only equals the "
             "error subset in order, sort_issues is a stable permutation ordered by file/column/key/row, and "
             "replace_tag_references leaves JSON-serialisable values with unchanged codes.",
             "NoSchema stub; the two validator stage methods are overridden to return issues built by the real "
@@ -142,7 +147,8 @@ CLAIMED = {
             "balanced grouping symbols), tied to the real tokenizer; and the algebra laws (A||B iff A or B, A&&B "
             "symmetric/associative/implies both via distinct tags, term/quoted/star modes, sibling-permutation "
             "invariance, repeated search agrees, annotation unchanged) on fixed annotation shapes whose tag letters "
-            "are symbolic, over a term-stub schema.",
+            "are symbolic, over a term-stub schema; the three term modes also on tags carrying a one-character "
+            "extension or value (a bare term never matches through it).",
             "token kinds symbolic, texts looked up lazily (the regex tokenizer realises); queries in the algebra "
             "harnesses are concrete and selected by small ints; shapes of <=5 tags; depth-4 grammar x depth-4 "
             "annotations and query_service (pandas) are outside."),
